@@ -376,6 +376,7 @@ func ruleStoreLoadAtomic(c *Ctx, a *cacheAnchors) {
 	var hc *Term
 	n, adopted := 0, 0
 	bad := []string{}
+	strict := []string{}
 	sim := c.P.Simulate(fn, SimConfig{Inline: inlineCache, Init: func(s *Sim, st *State, params []*Term) { hc = params[0] }}, func(pr *PathResult) {
 		n++
 		s := &Sim{P: c.P, Cfg: SimConfig{NoHavoc: true}}
@@ -405,6 +406,28 @@ func ruleStoreLoadAtomic(c *Ctx, a *cacheAnchors) {
 			return
 		}
 		adopted++
+		// the loader must accept every record the completions write: a hit-for-pass marker has no
+		// response and may have createdAt == 0, so only status, expiry and (for a hit) the response may be tested
+		decodedCreated := map[string]bool{}
+		for _, e := range pr.Events {
+			if e.Kind == "store" && isFieldAddr(e.Addr, a.fCreatedAt) && e.Addr.Args[0].Op == "alloc" {
+				decodedCreated[e.Val.Key()] = true
+			}
+		}
+		for _, l := range pr.Conds {
+			l.Atom.walk(func(x *Term) bool {
+				if decodedCreated[x.Key()] && !x.IsConst() {
+					strict = append(strict, fmt.Sprintf("the loader tests createdAt of the decoded record (%s): hit-for-pass markers are written with createdAt == 0 and would be thrown away on reload, so the key is probed and queued again inside its period", l.String()))
+					return false
+				}
+				if x.Op == "init" && len(x.Args) == 1 && x.Args[0].Op == "fa" && x.Args[0].Args[0].Op == "alloc" {
+					if fv, ok := x.Args[0].Obj.(*types.Var); ok && fv == a.fCreatedAt {
+						strict = append(strict, fmt.Sprintf("the loader tests createdAt of the decoded record (%s): hit-for-pass markers are written with createdAt == 0 and would be thrown away on reload, so the key is probed and queued again inside its period", l.String()))
+					}
+				}
+				return true
+			})
+		}
 		S := s.finalCell(pr.State, hc, a.fStatus)
 		E := s.finalCell(pr.State, hc, a.fExpiredAt)
 		R := s.finalCell(pr.State, hc, a.fResponse)
@@ -432,6 +455,7 @@ func ruleStoreLoadAtomic(c *Ctx, a *cacheAnchors) {
 		c.undecided("load-atomic", name, pos, "no path adopts a record: loader idiom not recognised")
 		return
 	}
+	c.check(len(strict) == 0, "loader-accepts-saved", name, pos, "adopting paths test only status, expiry and (for a hit) the response: every record a completion writes is accepted", strings.Join(uniq(strict), " || "), adopted)
 	if len(bad) > 0 {
 		if len(bad) > 3 {
 			bad = bad[:3]
